@@ -180,9 +180,22 @@ fn run(args: &Args) {
         let driver = args.driver.clone();
         handles.push(std::thread::spawn(move || loop {
             // take a batch
+            // (a case of a fixed-script profile is a batch of its own: such cases can be long, and the cases of one batch
+            // go through one model process one after the other)
             let batch: Vec<(usize, usize)> = {
                 let mut w = work.lock().unwrap();
-                let n = w.len().min(25);
+                let is_fixed = |x: &(usize, usize)| profiles[x.0].fixed.is_some();
+                let mut n = 0usize;
+                while n < 25 && n < w.len() {
+                    let x = &w[w.len() - 1 - n];
+                    if is_fixed(x) {
+                        if n == 0 {
+                            n = 1;
+                        }
+                        break;
+                    }
+                    n += 1;
+                }
                 let at = w.len() - n;
                 w.split_off(at)
             };
